@@ -24,6 +24,7 @@ S == Ev.s
 A(i) == Ev.a[i]
 
 Set(s) == {s[i] : i \in DOMAIN s}
+B2I(b) == IF b THEN 1 ELSE 0        \* booleans a query may fail to deliver are logged as 1 / 0 / -2 (raised)
 FromPairs(s) == [x \in {s[i][1] : i \in DOMAIN s} |-> s[CHOOSE i \in DOMAIN s : s[i][1] = x][2]]
 StrictlySorted(s) == \A i \in 1..(Len(s) - 1) : s[i] < s[i + 1]
 Sorted(s) == \A i \in 1..(Len(s) - 1) : s[i] <= s[i + 1]
@@ -235,7 +236,7 @@ ViewNodeTable ==
            /\ r.con = r.on /\ r.cin = r.in /\ r.coe = r.oe /\ r.cie = r.ie
            /\ r.no = Cardinality(NOut(n)) /\ r.ni = Cardinality(NIn(n))
            /\ r.nnb \in {Cardinality(Nbrs(n)), Len(r.nb)}      \* "number of neighbours": distinct ones, or one per listed entry (2b)
-           /\ r.leaf = IsLeaf(n)                                  \* a looped node is its own neighbour (as getNeighbors lists it)
+           /\ r.leaf = B2I(IsLeaf(n))                                  \* a looped node is its own neighbour (as getNeighbors lists it)
            /\ ~HasLoop(n) => r.deg = Degree(n)
            \* with a self-loop the documentation ("number of neighbours") does not say how the loop
            \* counts (the code: 2 when directed, 1 when undirected); only agreement with the list query is asserted
@@ -296,7 +297,7 @@ ViewObs ==
                   /\ IdxListOk(R, r.in, ObjsOf(R, NIn(n)))
                   /\ EIdxListOk(R, r.ed, EObjsOf(R, EAll(n))) /\ EIdxListOk(R, r.oe, EObjsOf(R, EOut(n)))
                   /\ EIdxListOk(R, r.ie, EObjsOf(R, EIn(n)))
-                  /\ r.leaf = IsLeaf(n)
+                  /\ r.leaf = B2I(IsLeaf(n))
            /\ IdxListOk(R, W.idxs, Rng(R.nObj)) /\ EIdxListOk(R, W.eidxs, Rng(R.eObj))
            /\ {W.nt[j].o : j \in DOMAIN W.nt} = Rng(R.nObj)
            /\ \A j \in DOMAIN W.nt :
@@ -306,7 +307,7 @@ ViewObs ==
                   /\ Set(r.oe) = EObjsOf(R, EOut(n)) /\ Set(r.ie) = EObjsOf(R, EIn(n)) /\ Set(r.ed) = EObjsOf(R, EAll(n))
                   /\ r.ion = r.on /\ r.iin = r.in /\ r.ioe = r.oe /\ r.iie = r.ie
                   /\ r.con = r.on /\ r.cin = r.in /\ r.coe = r.oe /\ r.cie = r.ie
-                  /\ r.leaf = IsLeaf(n)
+                  /\ r.leaf = B2I(IsLeaf(n))
                   /\ ~HasLoop(n) => r.deg = Degree(n)
 
 \* end points of every association and the edge linking two associated nodes
